@@ -4,8 +4,8 @@ Q=["quick","thorough"];T=["thorough"]
 H=[{"name":"H_witness","tiers":Q,"expect":"violation","bounds":"vacuity witness"}]
 H.append({"name":"H_lru","tiers":Q,"bounds":"chunk size 1..3, 1..2 cache entries, file length 0..5 (fully symbolic), every sequence of 3 operations (Seek with whence x symbolic offset in [-2,len+2], or Read of 0..4 bytes)",
   "param_sets":[{"cs":cs,"ne":ne,"n":n,"nops":3} for cs in (1,2,3) for ne in (1,2) for n in (0,2,4)]})
-H.append({"name":"H_lru","tiers":T,"bounds":"chunk size 1..4, 1..3 entries, file length 0..6, every sequence of 4 operations","max_seconds":1500,
-  "param_sets":[{"cs":cs,"ne":ne,"n":n,"nops":4} for cs in (1,2,3,4) for ne in (1,2,3) for n in range(0,7)]})
+H.append({"name":"H_lru","tiers":T,"bounds":"chunk size 1..3, 1..3 entries, file length 0..6, every sequence of 4 operations (chunk size 4: file length 0..2)","max_seconds":900,
+  "param_sets":[{"cs":cs,"ne":ne,"n":n,"nops":4} for cs in (1,2,3,4) for ne in (1,2,3) for n in range(0,7) if not (cs==4 and n>=3)]})
 scale=[{"set":"s","file":"bsdiff/diff.go","func":"Do","match":"128 * 1024","value":"4"},
  {"set":"s","file":"bsdiff/patch.go","func":"NewIndividualPatchContext","ident":"minBufferSize","value":"2"},
  {"set":"s","file":"bsdiff/patch.go","func":"NewIndividualPatchContext","ident":"lruChunkSize","value":"2"},
@@ -26,8 +26,8 @@ H.append({"name":"H_bsdiff_real","tiers":Q,"scale":"w","bounds":"scan block 64 (
    [{"nold":24,"shape":sh,"pos":11,"parts":pt,"conc":0,"reuse":r} for sh in (0,2,3) for pt in (0,2) for r in (1,16)]})
 H.append({"name":"H_bsdiff_edit","tiers":Q,"scale":"s4","bounds":"lru chunk 4 / copy buffer 4 / scan block 8, alphabet {0,1}: old of 5..9 bytes, new = old with one byte (every position) replaced by a fresh symbol: add regions that run to the end of the old file with the delta in any read slice, incl. the last short one; partitions 0..1",
   "param_sets":[{"nold":n,"pos":p,"alpha":2,"parts":q,"conc":0} for n in (5,6,7,9) for p in range(n) for q in (0,1)]})
-H.append({"name":"H_bsdiff","tiers":T,"scale":"s","bounds":"alphabet {0,1,2}: old 0..5, new 0..6, partitions 0..16","max_seconds":1500,
-  "param_sets":[{"nold":a,"nnew":b,"alpha":3,"parts":p,"conc":c} for a in range(0,6) for b in range(0,7) for p in (0,1,2,3,4,5,8,16) for c in (0,)]})
+H.append({"name":"H_bsdiff","tiers":T,"scale":"s","bounds":"alphabet {0,1,2}: old 0..5, new 0..6 (old+new <= 8), partitions 0..16","max_seconds":900,
+  "param_sets":[{"nold":a,"nnew":b,"alpha":3,"parts":p,"conc":c} for a in range(0,6) for b in range(0,7) for p in (0,1,2,3,4,5,8,16) for c in (0,) if a+b<=8]})
 json.dump({"property":"C12","package":"c12","scale":scale,"harnesses":H,
  "stubs":["old file = bytes.Reader"],
  "outside":["(this entry is extended below by the bsdiff harnesses when they are registered)","the real 32 MiB cache geometry","operation sequences longer than 4"]},open("config.json","w"),indent=1)
